@@ -165,6 +165,7 @@ def gen_cases(seed, chunk, n, tier):
         p = {}
         ins = ["x"]
         orc = None
+        ip_problem = None
         nontrivial = keep < 1.0
         exp = None
         exp_idx = list(x.indices)
@@ -192,7 +193,8 @@ def gen_cases(seed, chunk, n, tier):
             x = x.expand_dims(pos)
             env = {"x": x}
             D = oracle.dense(x)
-            p = {"axis": [pos]} if rng.random() < 0.6 else {"axis": None}
+            r_ = rng.random()
+            p = {"axis": [pos]} if r_ < 0.4 else ({"axis": [pos], "as_int": True} if r_ < 0.65 else {"axis": None})
             if p["axis"] is None:
                 keepax = [i for i, ix in enumerate(x.indices) if ix.size_total != 1]
                 bad = [i for i, ix in enumerate(x.indices)
@@ -233,6 +235,27 @@ def gen_cases(seed, chunk, n, tier):
             y.blocks.update(items)
             env["y"] = y
             ins = ["x", "y"]
+            # augmented form on a copy: raises iff the operator raises, otherwise the same value; y untouched
+            import operator as _op
+            try:
+                want_ip = ("ok", ser.canon_array(ser.enc_array({"add": _op.add, "sub": _op.sub, "mul": _op.mul}[op](x, y))))
+            except Exception as e_:  # noqa
+                want_ip = ("raise", type(e_).__name__)
+            z_ = x.copy()
+            y0_ = ser.canon_array(ser.enc_array(y), drop_zero=False)
+            try:
+                z_ = {"add": _op.iadd, "sub": _op.isub, "mul": _op.imul}[op](z_, y)
+                got_ip = ("ok", ser.canon_array(ser.enc_array(z_)))
+            except Exception as e_:  # noqa
+                got_ip = ("raise", type(e_).__name__)
+            if got_ip != want_ip:
+                ip_problem = (f"x {dict(add='+', sub='-', mul='*')[op]}= y gives {got_ip[0]} "
+                              f"{got_ip[1] if got_ip[0] == 'raise' else ''} but x {dict(add='+', sub='-', mul='*')[op]} y gives "
+                              f"{want_ip[0]} {want_ip[1] if want_ip[0] == 'raise' else '(a different value)'}")
+            elif ser.canon_array(ser.enc_array(y), drop_zero=False) != y0_:
+                ip_problem = "the augmented operator modified its right operand"
+            else:
+                ip_problem = None
             E = oracle.dense(y)
             exp = {"add": D + E, "sub": D - E, "mul": D * E}[op]
             nontrivial = set(x.blocks) != set(y.blocks)
@@ -333,6 +356,8 @@ def gen_cases(seed, chunk, n, tier):
                     orc = None  # raising is an accepted outcome here
                 else:
                     orc = f"{op} raised {res[0].get('msg')}"
+        if orc is None and op in ("add", "sub", "mul") and ip_problem:
+            orc = ip_problem
         meta = dict(sym=sym, static=static, dtype=dtype, op=op, entry=entry)
         out.append(dict(case=_mk_case(env, steps), impl=stream.strip_py(res), oracle=orc, meta=meta,
                         nontrivial=bool(nontrivial), op=op, triggers=[]))
